@@ -104,6 +104,8 @@ type runResult struct {
 	tokFail    string
 	cancelled  bool // the run was cancelled while the child was (by construction) still running
 	cancelHow  string
+	reaped     bool  // Start+Stop: the child no longer exists after Stop() (it was waited for)
+	stopCalls  int64 // Start+Stop: number of Stop() calls needed
 	scriptPath string
 }
 
@@ -182,7 +184,8 @@ func (m *monitor) run(cs *caseSpec) *runResult {
 	finished := make(chan struct{})
 	var output string
 	var runErr, startErr error
-	var cancelled atomic.Bool
+	var cancelled, reaped atomic.Bool
+	var stopCalls atomic.Int64
 	var p *subprocess.Subprocess
 	go func() {
 		defer close(finished)
@@ -218,10 +221,27 @@ func (m *monitor) run(cs *caseSpec) *runResult {
 			}
 			// there is no Wait in the API: the child reports its own completion, then Stop() reaps it
 			never := make(chan struct{})
-			if waitDone(donePath, never, caseWatchdog-10*time.Second) == nil {
+			d := waitDone(donePath, never, caseWatchdog-20*time.Second)
+			if d == nil {
 				startErr = errors.New("child never reported completion")
+				runErr = p.Stop()
+				return
 			}
-			runErr = p.Stop()
+			// Stop() is documented idempotent. It returns without doing anything while IsOn() is still false
+			// (IsOn depends on the library's monitoring goroutine having been scheduled), so it is repeated
+			// until the child has been reaped: only then has the library waited for the end of the streams.
+			for start := time.Now(); ; {
+				stopCalls.Add(1)
+				runErr = p.Stop()
+				if _, err := os.Stat(fmt.Sprintf("/proc/%d", d.Pid)); err != nil {
+					reaped.Store(true)
+					break
+				}
+				if time.Since(start) > 5*time.Second {
+					break
+				}
+				time.Sleep(time.Millisecond)
+			}
 		case "cancel-ctx", "cancel-method":
 			cctx, cancel := context.WithCancel(ctx)
 			defer cancel()
@@ -267,6 +287,8 @@ func (m *monitor) run(cs *caseSpec) *runResult {
 		res.watchdog = fmt.Sprintf("mode %s did not return within %v", cs.Mode, caseWatchdog)
 	}
 	res.cancelled = cancelled.Load()
+	res.reaped = reaped.Load()
+	res.stopCalls = stopCalls.Load()
 	res.cancelHow = cs.Mode
 	res.msgs = rec.snapshot()
 	res.done = readDone(donePath)
@@ -417,6 +439,15 @@ func (m *monitor) judge(cs *caseSpec, res *runResult) {
 	if res.startErr != nil {
 		r.Inconclusive("could not set up / start the subprocess: " + res.startErr.Error())
 		return
+	}
+	if cs.Mode == "start" {
+		if !res.reaped {
+			r.Inconclusive("Start+Stop: Stop() did not reap the finished child within 5 s (no point at which the streams are known to be complete)")
+			return
+		}
+		if res.stopCalls > 1 {
+			r.Obs("start_mode_first_Stop_was_a_no-op", 1)
+		}
 	}
 	cancelMode := isCancelMode(cs.Mode)
 	if !cancelMode {
